@@ -256,6 +256,34 @@ class Program:
 # AST helpers
 # ---------------------------------------------------------------------------------------------
 
+class Dotted(str):
+    """'a.b.c' of a Name/Attribute chain taken from the repository.  Compared with a plain string written in a rule, the FIRST component is
+    a pattern variable when the rule's spelling of it is the name of a local (not a builtin, not self/cls, not bound at module level anywhere
+    in the package) and the chain has at least two components: `dotted(n.func) == 'defer.set_data'` holds for `d.set_data` as well.  A bare
+    name stays an exact test, and two Dotted values (both from the repository) are compared exactly."""
+
+    def __eq__(self, other: object) -> bool:
+        if not isinstance(other, str):
+            return NotImplemented
+        if str.__eq__(self, other):
+            return True
+        if isinstance(other, Dotted) or '.' not in other or '.' not in self:
+            return False
+        h1, _, t1 = self.partition('.')
+        h2, _, t2 = other.partition('.')
+        if t1 != t2:
+            return False
+        from .srcmatch import globals_
+        g = globals_()
+        return h2 not in g and h1 not in g
+
+    def __ne__(self, other: object) -> bool:
+        r = self.__eq__(other)
+        return r if r is NotImplemented else not r
+
+    __hash__ = str.__hash__
+
+
 def dotted(node: ast.AST) -> Optional[str]:
     """'a.b.c' for Name/Attribute chains, else None."""
     parts: List[str] = []
@@ -264,7 +292,7 @@ def dotted(node: ast.AST) -> Optional[str]:
         node = node.value
     if isinstance(node, ast.Name):
         parts.append(node.id)
-        return '.'.join(reversed(parts))
+        return Dotted('.'.join(reversed(parts)))
     return None
 
 
